@@ -79,7 +79,7 @@ func main() {
 				// one lock to a shared one (with its releases), or drop the locking of that lock altogether
 				type span struct{ s, e token.Pos }
 				locks := map[string]map[string][]span{} // lock expr -> method -> call spans (selector identifier)
-				var stmts = map[string][]span{}          // lock expr -> whole statements that lock/unlock it
+				var stmts = map[string][]span{}         // lock expr -> whole statements that lock/unlock it
 				ast.Inspect(fd.Body, func(n ast.Node) bool {
 					var call *ast.CallExpr
 					var whole ast.Node
